@@ -25,6 +25,10 @@ def run(repo, run, tier):
     searches(repo, run, fn, idx)
     dense_branch(repo, run, fn, idx)
     int_semantics(repo, run, fn, idx)
+    # the dense solution a time lookup answers from must cover exactly the recorded steps: on a terminal event the pieces of the rolled-back step are removed
+    # from the end they were added to (direction-aware)
+    from .c09 import removal_index
+    removal_index(repo, run, "C19.8")
     length(repo, run)
 
 
